@@ -42,7 +42,7 @@ theorem unmarshal_congr (C1 C2 : Codec V) (h : ∀ bs rs, C1.dec bs rs = C2.dec 
 theorem dict_roundtrip (Ce Cd : Codec V) (pay : V → List Bool × List Cell) (n : Nat) (kvs : List (Key × V))
     (hne : kvs ≠ []) (hw : ∀ kv ∈ kvs, kv.1.length = n) (hs : SortedKV kvs)
     (hfit : ∀ kv ∈ kvs, Ce.enc kv.2 = .ok (pay kv.2) ∧
-      (pay kv.2).1.length + n + 9 + minBitsRequired n ≤ 1023 ∧ (pay kv.2).2.length ≤ 4 ∧
+      (pay kv.2).1.length + n + 2 + minBitsRequired n ≤ 1023 ∧ (pay kv.2).2.length ≤ 4 ∧
       Cd.dec (pay kv.2).1 (pay kv.2).2 = .ok kv.2) :
     ∃ root, marshal Ce n kvs = .ok root ∧ root.ty = 0 ∧ unmarshal Cd n root = .ok kvs := by
   let C : Codec V := ⟨Ce.enc, Cd.dec⟩
